@@ -19,6 +19,7 @@ import (
 	"strconv"
 	"strings"
 	"sync"
+	"time"
 
 	. "verifharness/hlib"
 
@@ -147,6 +148,30 @@ type result struct {
 	goFinds  []Finding // Go-level oracle findings (buffer aliasing, clean-up)
 	segsDone int
 	notes    map[string]int
+	skipped  bool // not run (after a hang of an earlier wire session)
+}
+
+// Watchdog budgets.  They cost nothing when the call returns; expiry of the first one is never a
+// verdict by itself (the case is run again alone with the long one).
+const (
+	firstBudget      = 3 * time.Minute
+	confirmBudget    = 10 * time.Minute
+	wireSettleBudget = 5 * time.Minute
+)
+
+// guarded runs one session under a watchdog; hung = it did not return within the budget (its
+// goroutine is abandoned)
+func guarded(budget time.Duration, f func() result) (res result, hung bool) {
+	done := make(chan result, 1)
+	go func() { done <- f() }()
+	t := time.NewTimer(budget)
+	defer t.Stop()
+	select {
+	case res = <-done:
+		return res, false
+	case <-t.C:
+		return result{notes: map[string]int{}}, true
+	}
 }
 
 var dirMu sync.Mutex
@@ -324,7 +349,8 @@ func runImpl(k *hcase, in string) (res result) {
 	if !res.panicked {
 		query()
 		readHeld()
-		if cur, ok, _, _ := sg.VerifCurrent(); ok && !k.disk {
+		if cur, ok, _, _ := sg.VerifCurrent(); ok {
+			// (for a persistent segment the accessor flushes the buffered writer and reads the file)
 			res.tokens = append(res.tokens, fmt.Sprintf("C:%d:%s", cur.SequenceNo, Hx(sg.VerifCurrentBytes())))
 		}
 	}
@@ -375,7 +401,7 @@ func genCase(c *Ctx) *hcase {
 	k.disk = c.Rng.Chance(35)
 	k.path = []string{"/live/cam1", "/a", "/x/y/z", "/s-1_2"}[c.Rng.Intn(4)]
 	if c.Rng.Chance(60) {
-		k.token = []string{"tok123", "a", "ABCDEF0123456789abcdef", "t-_.~"}[c.Rng.Intn(4)]
+		k.token = genToken(c)
 	}
 	k.sps = sanitizeNal(append([]byte{0x67}, c.Rng.Bytes(2+c.Rng.Intn(10))...))
 	k.pps = sanitizeNal(append([]byte{0x68}, c.Rng.Bytes(1+c.Rng.Intn(4))...))
@@ -497,6 +523,33 @@ func genCase(c *Ctx) *hcase {
 		}
 	}
 	return k
+}
+
+// genToken: what a caller may send as ?token=…: the server's own hex tokens, other unreserved text,
+// and text with characters that mean something inside a URI or a playlist line
+func genToken(c *Ctx) string {
+	switch c.Rng.Intn(8) {
+	case 0:
+		return "tok123"
+	case 1:
+		return Hx(c.Rng.Bytes(16)) // security.NewSecret
+	case 2:
+		return []string{"a", "t-_.~", "ABCDEF0123456789abcdef"}[c.Rng.Intn(3)]
+	case 3, 4:
+		// one reserved character in the middle
+		const special = "&=+#%?/ ;:@!$'()*,\"<>[]{}|^`\\"
+		return "a" + string(special[c.Rng.Intn(len(special))]) + "b"
+	case 5:
+		return []string{"x&token=y", "a b", "50%", "a%41", "k=v&k2=v2", "#frag", "a+b", "\u00e9t\u00e9"}[c.Rng.Intn(8)]
+	case 6:
+		return []string{"a\n#EXT-X-ENDLIST", "a\r\nb", "tab\there"}[c.Rng.Intn(3)]
+	default:
+		b := c.Rng.Bytes(1 + c.Rng.Intn(12))
+		for i := range b {
+			b[i] = 0x20 + b[i]%0x5f // printable ASCII
+		}
+		return string(b)
+	}
 }
 
 func (k *hcase) spsOr() []byte {
@@ -631,28 +684,71 @@ func run(c *Ctx) {
 
 	lines := make([]string, len(cases))
 	results := make([]result, len(cases))
+	hung := make([]bool, len(cases))
 	var wg sync.WaitGroup
 	sem := make(chan struct{}, 8)
 	for i, k := range cases {
 		i, k := i, k
+		// driver line: inputs (without client actions: they are in the observation tokens), then observations in order
+		lines[i] = fmt.Sprintf("c10 run frag=%d rate=%d path=%s token=%s sps=%s pps=%s asc=%s", k.frag, k.rate,
+			Hx([]byte(k.path)), Hx([]byte(k.token)), Hx(k.sps), Hx(k.pps), ascFields(k.ascraw))
+		if strings.HasPrefix(k.tag, "wire") {
+			continue // the wire sessions share process-wide state: one after the other, below
+		}
 		wg.Add(1)
 		sem <- struct{}{}
 		go func() {
 			defer func() { <-sem; wg.Done() }()
 			in := k.line()
-			if strings.HasPrefix(k.tag, "wire") {
-				results[i] = runWire(k, in)
-			} else {
-				results[i] = runImpl(k, in)
-			}
-			// driver line: inputs (without client actions: they are in the observation tokens), then observations in order
-			var b strings.Builder
-			fmt.Fprintf(&b, "c10 run frag=%d rate=%d path=%s token=%s sps=%s pps=%s asc=%s", k.frag, k.rate,
-				Hx([]byte(k.path)), Hx([]byte(k.token)), Hx(k.sps), Hx(k.pps), ascFields(k.ascraw))
-			lines[i] = b.String()
+			results[i], hung[i] = guarded(firstBudget, func() result { return runImpl(k, in) })
 		}()
 	}
 	wg.Wait()
+	// A session that did not come back is run once more, alone and with a long budget: only a call into
+	// the implementation that still does not return then is reported (never a slow machine).
+	confirmHang := func(i int, again func() result) {
+		c.Count("watchdog-expired-rerun-alone")
+		var h bool
+		results[i], h = guarded(confirmBudget, again)
+		if h {
+			results[i] = result{notes: map[string]int{}, panicked: true}
+			results[i].goFinds = append(results[i].goFinds, Finding{Kind: "oracle", Class: "hls-call-never-returns", Case: cases[i].line(),
+				Impl: fmt.Sprintf("the session did not finish within %v, run alone (a call into the generator, the playlist or the HTTP handler does not return)", confirmBudget),
+				Spec: "every frame is accepted and every playlist / segment request answered"})
+		}
+	}
+	for i, k := range cases {
+		if hung[i] {
+			i, k := i, k
+			confirmHang(i, func() result { return runImpl(k, k.line()) })
+		}
+	}
+	wireBroken := false
+	for i, k := range cases {
+		if !strings.HasPrefix(k.tag, "wire") {
+			continue
+		}
+		if wireBroken {
+			// a wire session that hangs keeps the process-wide configuration and registry: no further one can be judged
+			c.Count("wire-skipped-after-hang")
+			results[i] = result{notes: map[string]int{}, skipped: true}
+			continue
+		}
+		i, k := i, k
+		in := k.line()
+		var h bool
+		results[i], h = guarded(firstBudget+wireSettleBudget, func() result { return runWire(k, in) })
+		if h {
+			wireBroken = true
+			results[i] = result{notes: map[string]int{}, panicked: true}
+			results[i].goFinds = append(results[i].goFinds, Finding{Kind: "oracle", Class: "hls-call-never-returns", Case: in,
+				Impl: fmt.Sprintf("the wire session did not finish within %v (a call into media.Stream or the HLS HTTP handlers does not return)", firstBudget+wireSettleBudget),
+				Spec: "every frame is accepted and every playlist / segment request answered"})
+		}
+		if results[i].notes["wire-stalled"] > 0 {
+			wireBroken = true // its muxer goroutine may still be about: later sessions could not rely on the schedule point
+		}
+	}
 	for i := range cases {
 		lines[i] += " " + strings.Join(results[i].tokens, " ")
 	}
@@ -663,6 +759,9 @@ func run(c *Ctx) {
 	for i, k := range cases {
 		in := k.line()
 		r := results[i]
+		if r.skipped {
+			continue
+		}
 		m := KV(outs[i])
 		c.Eval(in, r.segsDone >= 3)
 		c.Count("shape:" + k.tag)
@@ -674,6 +773,9 @@ func run(c *Ctx) {
 		c.Count(fmt.Sprintf("segments-completed:%s", bucket(r.segsDone)))
 		if k.token != "" {
 			c.Count("with-token")
+			if strings.Trim(k.token, "ABCDEFGHIJKLMNOPQRSTUVWXYZabcdefghijklmnopqrstuvwxyz0123456789-._~") != "" {
+				c.Count("with-token-needing-escape")
+			}
 		}
 		for _, t := range r.tokens {
 			switch t[0] {
@@ -700,19 +802,21 @@ func run(c *Ctx) {
 		if r.panicked {
 			c.Count("impl-panic")
 		}
-		if k.frag < 1 {
-			// fragment length 0 is below what the configuration allows: frames may be lost there
-			// (c10_short_segment_dropped_when_frag_zero), so the frame-accounting clauses are out of
-			// domain — but the playlist and segment-format clauses of the property hold for every
-			// fragment length (sub-100 ms fragments are in the property's quantifier)
-			c.Count("oracle-frame-accounting-out-of-domain(frag<1)")
-			spec := m["spec"]
-			if !(strings.HasPrefix(spec, "fail:playlist-") || strings.HasPrefix(spec, "fail:segment-")) {
+		spec := m["spec"]
+		if spec == "ok" || spec == "skip" || spec == "" {
+			continue
+		}
+		for _, cls := range strings.Split(strings.TrimPrefix(spec, "fail:"), ",") {
+			if k.frag < 1 && !(strings.HasPrefix(cls, "playlist-") || strings.HasPrefix(cls, "segment-")) {
+				// fragment length 0 is below what the configuration allows: frames may be lost there
+				// (c10_short_segment_dropped_when_frag_zero), so the frame-accounting clauses are out of
+				// domain — but the playlist and segment-format clauses of the property hold for every
+				// fragment length (sub-100 ms fragments are in the property's quantifier)
+				c.Count("oracle-frame-accounting-out-of-domain(frag<1)")
 				continue
 			}
-		}
-		if spec := m["spec"]; spec != "ok" && spec != "skip" {
-			c.Find(Finding{Kind: "oracle", Class: strings.TrimPrefix(spec, "fail:"), Case: in, Impl: implDesc, Spec: spec, Model: m["model"]})
+			c.Count("oracle-fail:" + cls + " shape:" + k.tag)
+			c.Find(Finding{Kind: "oracle", Class: cls, Case: in, Impl: implDesc, Spec: spec, Model: m["model"]})
 		}
 	}
 }
